@@ -71,7 +71,11 @@ type Zone struct {
 	Poison    map[Key]Poison    // extra answers owned by unrelated names
 	NXUnknown bool              // names without any data answer NXDOMAIN instead of NOERROR/no data
 	Compress  bool              // use RFC 1035 name compression in responses
+	NegSOA    *NegSOA           // when set: a NOERROR response without answers carries this SOA in its authority section (RFC 2308)
 }
+
+// NegSOA is the SOA record of negative answers: its TTL and its MINIMUM field.
+type NegSOA struct{ TTL, Minimum uint32 }
 
 // NewZone returns an empty universe.
 func NewZone() *Zone {
